@@ -266,6 +266,95 @@ func ownFunc(w *World, fi *FuncInfo) []*OwnOb {
 			out = append(out, a.obs[k])
 		}
 	}
+	out = append(out, sliceAliasObs(w, fi)...)
+	return out
+}
+
+// sliceAliasObs: a slice-typed parameter that is not a tree ([]*Document, []string, ...) shares its backing array with
+// the caller's slice. Storing it (or a reslice of it) into a struct field, a package variable or a composite literal,
+// or appending to it, makes two owners write through one array (a later append on either side overwrites the other's
+// elements). Values are sequences in the functional obligations, so this is an ownership obligation: such a parameter
+// may only be read, unless the contract declares it consumed.
+func sliceAliasObs(w *World, fi *FuncInfo) []*OwnOb {
+	info := fi.Pkg.TypesInfo
+	sig := fi.Obj.Type().(*types.Signature)
+	params := map[*types.Var]bool{}
+	for i := 0; i < sig.Params().Len(); i++ {
+		p := sig.Params().At(i)
+		if _, isSlice := p.Type().Underlying().(*types.Slice); isSlice && !isTreeType(p.Type()) && !isByteSlice(p.Type()) {
+			if fi.Contract == nil || !contains(fi.Contract.Consumes, p.Name()) {
+				params[p] = true
+			}
+		}
+	}
+	if len(params) == 0 {
+		return nil
+	}
+	// parameters that are reassigned are no longer the caller's slice for certain; stay conservative and keep them
+	var root func(x ast.Expr) *types.Var
+	root = func(x ast.Expr) *types.Var {
+		switch y := x.(type) {
+		case *ast.ParenExpr:
+			return root(y.X)
+		case *ast.SliceExpr:
+			return root(y.X)
+		case *ast.Ident:
+			if v, ok := info.ObjectOf(y).(*types.Var); ok && params[v] {
+				return v
+			}
+		case *ast.CallExpr:
+			if id, ok := y.Fun.(*ast.Ident); ok && id.Name == "append" && len(y.Args) > 0 {
+				if _, isB := info.Uses[id].(*types.Builtin); isB {
+					return root(y.Args[0])
+				}
+			}
+		}
+		return nil
+	}
+	var out []*OwnOb
+	posOf := func(p token.Pos) string {
+		pp := w.Fset.Position(p)
+		return fmt.Sprintf("%s:%d", strings.TrimPrefix(pp.Filename, w.RepoDir+"/"), pp.Line)
+	}
+	add := func(what string, v *types.Var, p token.Pos) {
+		out = append(out, &OwnOb{Key: fmt.Sprintf("%s.own-slice-alias[%s <- %s]", fi.Key, what, v.Name()), Kind: "own-not-borrowed", OK: false, Pos: posOf(p),
+			Why: "the slice parameter " + v.Name() + " (the caller's backing array) is stored or appended to: two owners then write through one array; copy it (append to a fresh slice) or declare it consumed"})
+	}
+	ast.Inspect(fi.Decl.Body, func(n ast.Node) bool {
+		switch y := n.(type) {
+		case *ast.AssignStmt:
+			for i, r := range y.Rhs {
+				v := root(r)
+				if v == nil || i >= len(y.Lhs) {
+					continue
+				}
+				switch l := y.Lhs[i].(type) {
+				case *ast.Ident:
+					// a local: only an append on the parameter itself is a write through the caller's array
+					if _, isCall := r.(*ast.CallExpr); isCall {
+						add("append", v, y.Pos())
+					} else if lv, ok := info.ObjectOf(l).(*types.Var); ok && lv.Pkg() != nil && lv.Parent() == lv.Pkg().Scope() {
+						add(l.Name, v, y.Pos())
+					}
+				default:
+					add(exprString(y.Lhs[i]), v, y.Pos())
+				}
+			}
+		case *ast.KeyValueExpr:
+			if v := root(y.Value); v != nil {
+				add(exprString(y.Key), v, y.Pos())
+			}
+		case *ast.ReturnStmt:
+			for _, r := range y.Results {
+				if c, ok := r.(*ast.CallExpr); ok {
+					if v := root(c); v != nil {
+						add("return append", v, y.Pos())
+					}
+				}
+			}
+		}
+		return true
+	})
 	return out
 }
 
